@@ -183,7 +183,14 @@ def run_writer_sequence(case: dict) -> dict:
 
         async def go():
             await w.write_headers("HTTP/1.1 200 OK", hdrs)
+            ended = False
             for op in case["ops"]:
+                if ended and op[0] in ("write", "eof") and op[1]:
+                    continue  # writing after the end is outside the documented contract
+                if op[0] in ("eof", "set_eof"):
+                    ended_now = True
+                else:
+                    ended_now = False
                 if op[0] == "write":
                     data = bytes((i * 7 + op[2]) & 0xFF for i in range(op[1])) if op[1] < 5000 else (bytes(range(256)) * (op[1] // 256 + 1))[:op[1]]
                     written.extend(data)
@@ -196,6 +203,7 @@ def run_writer_sequence(case: dict) -> dict:
                     await w.write_eof(data)
                 elif op[0] == "set_eof":
                     w.set_eof()
+                ended = ended or ended_now
 
         loop.drive(go())
         data = b"".join(cp.chunks)
@@ -203,7 +211,8 @@ def run_writer_sequence(case: dict) -> dict:
         if sp is None:
             raise Violation("frame/no-head", f"no complete head in {data[:60]!r}")
         lines, bodyb = sp
-        ended_with_write_eof = any(op[0] == "eof" for op in case["ops"])
+        first_end = next((op for op in case["ops"] if op[0] in ("eof", "set_eof")), ("set_eof",))
+        ended_with_write_eof = first_end[0] == "eof"
         expect = bytes(written)
         if mode == "chunked":
             dec, terms, rest, err = dechunk(bodyb)
@@ -467,6 +476,8 @@ def run_client_inject(case: dict) -> dict:
         if len(rl) != 3 or rl[2] != b"HTTP/1.1":
             raise Violation(f"client-request-line/{pos}", f"request line {lines[0][:100]!r} for string {s!r}")
         names = [ln.split(b":", 1)[0].lower() for ln in lines[1:]]
+        if pos == "method" and b"content-length" in names:
+            names.remove(b"content-length")  # added for methods that normally carry a body
         expected = {"method": [b"host"], "path": [b"host"], "query": [b"host"], "hname": [b"host", None], "hvalue": [b"host", b"x-v"], "cname": [b"host", b"cookie"], "cvalue": [b"host", b"cookie"]}[pos]
         if len(names) != len(expected):
             raise Violation(f"client-line-count/{pos}", f"{len(names)} header lines {names}, expected {len(expected)} (string {s!r})")
@@ -523,31 +534,41 @@ def run_server_inject(case: dict) -> dict:
             for _ in range(50):
                 await asyncio.sleep(0)
             outcome["wire"] = bytes(peer.received)
-            await server.shutdown(0)
+            await server.shutdown(0.1)
 
         loop.drive(go(), max_time=100)
         wire = outcome["wire"]
         if outcome.get("ctor_error"):
             return {"refused": True}
-        resps, problem = refhttp.frame_responses(wire, closed=True)
-        if problem:
-            raise Violation(f"server-malformed/{pos}", f"string {s!r}: {problem}")
-        finals = [r for r in resps if r.complete]
-        if len(finals) > 1:
-            raise Violation(f"server-two-responses/{pos}", f"string {s!r} produced {len(finals)} responses")
-        if not finals:
-            if wire:
-                raise Violation(f"server-partial/{pos}", f"string {s!r}: partial output {wire[:80]!r}")
+        if not wire:
             return {"refused": True}
-        r = finals[0]
-        if r.status == 500:
+        sp = split_head(wire)
+        if sp is None:
+            raise Violation(f"server-partial/{pos}", f"string {s!r}: partial output {wire[:80]!r}")
+        lines, rest = sp
+        for ln in lines:
+            if b"\r" in ln or b"\n" in ln:
+                raise Violation(f"server-bare-crlf/{pos}", f"string {s!r}: {ln[:80]!r}")
+        st_line = lines[0].split(b" ", 2)
+        if len(st_line) < 2 or not st_line[1].isdigit():
+            raise Violation(f"server-status-line/{pos}", f"string {s!r}: status line {lines[0][:80]!r}")
+        status = int(st_line[1])
+        if status == 500:
             return {"refused": True}  # refused at write time: a clean 500 instead
-        names = [k.lower() for k, _v in r.headers]
+        names = [ln.split(b":", 1)[0].lower() for ln in lines[1:]]
+        cl = [ln.split(b":", 1)[1].strip() for ln in lines[1:] if ln.lower().startswith(b"content-length:")]
+        if cl and cl[0].isdigit() and len(rest) != int(cl[0]):
+            raise Violation(f"server-extra-bytes/{pos}", f"string {s!r}: {len(rest)} body bytes for Content-Length {cl[0]!r}: a second message? {rest[:60]!r}")
         base = {b"content-type", b"content-length", b"date", b"server", b"connection", b"location"}
         extra = [n for n in names if n not in base]
         allowed_extra = {"reason": 0, "hname": 1, "hvalue": 1, "cname": 1, "cvalue": 1, "ctype": 0, "location": 0}[pos]
         if len(extra) > allowed_extra:
             raise Violation(f"server-header-injected/{pos}", f"string {s!r}: unexpected header lines {extra}")
+
+        class _R:
+            reason = st_line[2] if len(st_line) > 2 else b""
+
+        r = _R()
         if pos == "reason" and r.reason != s.encode("utf-8"):
             raise Violation("server-reason-altered", f"reason {r.reason!r} for {s!r}")
         return {"refused": False}
@@ -582,6 +603,95 @@ def unit_e2e(rec: Rec, side: str, positions: list, n_random: int, offset: int) -
     hyp.run(rec, strat, body, n_random, seed_offset=offset, max_root_causes=4)
 
 
+def run_part_inject(case: dict) -> dict:
+    """Multipart part headers and FormData names: either refused, or exactly the supplied lines."""
+    import aiohttp
+
+    loop = new_loop()
+    try:
+        pos, s = case["pos"], case["s"]
+
+        async def go():
+            w = CapWriter()
+            try:
+                if pos in ("part_hname", "part_hvalue"):
+                    mp = aiohttp.MultipartWriter("mixed", boundary="bnd")
+                    part = mp.append(b"data")
+                    if pos == "part_hname":
+                        part.headers[s] = "v"
+                    else:
+                        part.headers["X-P"] = s
+                    nparts = 1
+                    _ = mp.size  # what ClientRequest / web.Response consult before any byte is sent
+                    await mp.write(w)
+                else:
+                    fd = aiohttp.FormData(quote_fields=case.get("quote_fields", True))
+                    if pos == "fd_name":
+                        fd.add_field(s, "value")
+                    elif pos == "fd_filename":
+                        fd.add_field("f", b"data", filename=s)
+                    elif pos == "fd_ctype":
+                        fd.add_field("f", b"data", filename="x", content_type=s)
+                    p = fd()
+                    if not isinstance(p, aiohttp.MultipartWriter):
+                        return {"refused": False, "urlencoded": True}
+                    nparts = 1
+                    _ = p.size
+                    await p.write(w)
+            except (ValueError, TypeError, UnicodeError, AssertionError, LookupError):
+                if w.data:
+                    raise Violation(f"bytes-before-refusal/{pos}", f"refused but {len(w.data)} bytes written")
+                return {"refused": True}
+            data = bytes(w.data)
+            m = __import__("re").match(rb"--([^\r\n]+)\r\n", data)
+            if not m:
+                raise Violation(f"part-no-boundary/{pos}", f"{data[:60]!r}")
+            b = b"--" + m.group(1)
+            pieces = data.split(b + b"\r\n")
+            if len(pieces) - 1 != nparts or not data.endswith(b + b"--\r\n"):
+                raise Violation(f"part-count/{pos}", f"string {s!r}: {len(pieces) - 1} parts / bad close: {data[:120]!r}")
+            head, _, bodyb = pieces[1].partition(b"\r\n\r\n")
+            lines = head.split(b"\r\n")
+            for ln in lines:
+                if b"\r" in ln or b"\n" in ln or b":" not in ln:
+                    raise Violation(f"part-line/{pos}", f"string {s!r}: part head line {ln[:80]!r}")
+            names = sorted(ln.split(b":", 1)[0].lower() for ln in lines)
+            auto = {b"content-type", b"content-disposition", b"content-length"}
+            extra = [n for n in names if n not in auto]
+            if len(extra) > (1 if pos in ("part_hname", "part_hvalue") else 0):
+                raise Violation(f"part-header-injected/{pos}", f"string {s!r}: part head has lines {names}")
+            if not bodyb.startswith(b"data\r\n") and not bodyb.startswith(b"value\r\n"):
+                raise Violation(f"part-body-shifted/{pos}", f"string {s!r}: part body {bodyb[:40]!r}")
+            return {"refused": False}
+
+        return loop.drive(go())
+    finally:
+        loop.shutdown()
+
+
+def unit_parts(rec: Rec, n_random: int, offset: int) -> None:
+    bases = {"part_hname": "X-Part", "part_hvalue": "value", "fd_name": "field", "fd_filename": "file.txt", "fd_ctype": "text/plain"}
+    for pos, base in bases.items():
+        for qf in ((True, False) if pos.startswith("fd_") else (True,)):
+            for cp in SPECIAL:
+                for place in (0, len(base) // 2, len(base)):
+                    s = base[:place] + chr(cp) + base[place:]
+                    case = {"unit": "parts", "pos": pos, "s": s, "quote_fields": qf}
+                    try:
+                        r = run_part_inject(case)
+                        rec.case((pos, cp, place, qf), True, [f"parts:{pos}", "refused" if r.get("refused") else "accepted"])
+                    except Violation as v:
+                        rec.fail(v.key, v.msg, case)
+
+    def body(rec2: Rec, case: dict) -> None:
+        r = run_part_inject(case)
+        rec2.case(case, True, [f"parts:{case['pos']}", "refused" if r.get("refused") else "accepted"])
+
+    strat = st.fixed_dictionaries({"unit": st.just("parts"), "pos": st.sampled_from(sorted(bases)), "quote_fields": st.booleans(),
+                                   "s": st.text(alphabet=st.one_of(st.sampled_from("\r\n\t :;,=\"\\\x00\x7fév-"), st.characters()), min_size=1, max_size=12)})
+    hyp.run(rec, strat, body, n_random, seed_offset=offset, max_root_causes=4)
+
+
 # ------------------------------------------------------------------ units
 def units(tier: str, seed: int) -> list[Unit]:
     us = []
@@ -598,6 +708,7 @@ def units(tier: str, seed: int) -> list[Unit]:
     us.append(Unit("e2e-client-b", unit_e2e, {"side": "client", "positions": ["hname", "hvalue"], "n_random": nr, "offset": 41}))
     us.append(Unit("e2e-client-c", unit_e2e, {"side": "client", "positions": ["cname", "cvalue"], "n_random": nr, "offset": 42}))
     us.append(Unit("e2e-server-a", unit_e2e, {"side": "server", "positions": ["reason", "hname", "hvalue"], "n_random": nr, "offset": 43}))
+    us.append(Unit("parts", unit_parts, {"n_random": nr * 3, "offset": 45}))
     us.append(Unit("e2e-server-b", unit_e2e, {"side": "server", "positions": ["cname", "cvalue", "ctype", "location"], "n_random": nr, "offset": 44}))
     return us
 
@@ -618,6 +729,8 @@ def replay(rec: Rec, case: dict) -> None:
         except (ValueError, UnicodeError):
             return
         check_head(out, start, fields, f"serialise-{case['pos']}")
+    elif u == "parts":
+        run_part_inject(case)
     elif u == "e2e":
         (run_client_inject if case["side"] == "client" else run_server_inject)(case)
     elif "ops" in case:
